@@ -25,8 +25,10 @@ type verifRun struct {
 func verifRunTree(name string) *verifRun {
 	// literals of class S are not field-path references ('$...' strings are spelled out
 	// in the templates themselves, with a symbolic remainder)
-	for _, s := range verifHoles(name, "S") {
-		verifAssume(!strings.HasPrefix(s, "$"))
+	for _, cl := range verifSecretClasses {
+		for _, s := range verifHoles(name, cl) {
+			verifAssume(!strings.HasPrefix(s, "$"))
+		}
 	}
 	line := verifLine(name)
 	in, ok := verifParseLine(line)
